@@ -367,23 +367,32 @@ XHatC(n) == CASE n = 1 -> <<3>> [] n = 2 -> <<3, 1>> [] n = 3 -> <<3, 1, 3>>
 Masks(n) == CASE n = 1 -> {<<1>>} [] n = 2 -> {<<1, 1>>, <<0, 1>>} [] n = 3 -> {<<1, 1, 1>>, <<0, 1, 1>>}
 Hess(n) == CASE n = 1 -> <<2>> [] n = 2 -> <<2, 1, 1, -2>> [] n = 3 -> <<2, 1, 0, 1, -2, 1, 0, 1, 4>>
 Space(n) == CASE n = 1 -> <<-1, 2>> [] n = 2 -> <<-1, 0, 2, 4>> [] n = 3 -> <<-1, 0, 1, 2, 4, 1>>
-IdxPars(d) == {<<0>>} \cup (IF d >= 2 THEN {<<1, d - 1>>, <<2, 1, 0>>} ELSE {<<1, 0>>})
+IdxPars(d) == {<<0>>, <<1, d - 1>>, <<2, 1, 0>>}      \* all outputs, [d-1], [1, 0]
 Scales == {1, 2}
-RestrPars(n) == {<<i, c>> : i \in (IF Wide THEN 0..(n - 1) ELSE {0, n - 1}), c \in (IF Wide THEN {2, -1} ELSE {2})}
+RestrPars(n) == IF Wide THEN {<<i, c>> : i \in 0..(n - 1), c \in {2, -1}}
+                ELSE {<<0, 2>>, <<n - 1, -1>>}       \* <<frozen index, frozen value>>
 
+RECURSIVE HasAggMax(_)
+HasAggMax(t) == t[1] = "aggmax" \/ \E k \in 1..Len(t[2]) : HasAggMax(t[2][k])
+
+(* Array operands and aggregations are for vector-valued functions (d >= 2): an array of    *)
+(* one element against a scalar function and the aggregation of a single constraint only   *)
+(* probe how gemseo represents scalars (float / 1-element array), of which the property     *)
+(* does not speak.  For the same reason the second-order Taylor polynomial (scalar          *)
+(* functions only) is not applied over aggregate_max, which returns a 1-element array.      *)
 UnaryExt(a) ==
   LET ty == Ty(a) IN
   {Un("neg", a, <<>>)}
   \cup {Un(o, a, <<c>>) : o \in FCOps, c \in Consts}
-  \cup {Un(o, a, ArrOf(ty.d)) : o \in FAOps}
+  \cup (IF ty.d >= 2 THEN {Un(o, a, ArrOf(ty.d)) : o \in FAOps} ELSE {})
   \cup (IF ty.n >= 2 THEN {Un("restr", a, q) : q \in RestrPars(ty.n)} ELSE {})
   \cup (IF ty.n >= 2 /\ ty.kind = "lin" THEN {Un("lrestr", a, q) : q \in RestrPars(ty.n)} ELSE {})
   \cup {Un("lincomp", a, M) : M \in MatsFor(ty.n)}
   \cup (IF ty.kind = "lin" /\ ty.norm = "no" THEN {Un("normalize", a, Space(ty.n))} ELSE {})
   \cup {Un("taylor1", a, XHat(ty.n))}
-  \cup (IF ty.d = 1 THEN {Un("taylor2", a, XHat(ty.n) \o Hess(ty.n))} ELSE {})
+  \cup (IF ty.d = 1 /\ ~HasAggMax(a) THEN {Un("taylor2", a, XHat(ty.n) \o Hess(ty.n))} ELSE {})
   \cup {Un("cvx", a, XHatC(ty.n) \o m) : m \in Masks(ty.n)}
-  \cup {Un(o, a, <<sc>> \o q) : o \in AggOps, sc \in Scales, q \in IdxPars(ty.d)}
+  \cup (IF ty.d >= 2 THEN {Un(o, a, <<sc>> \o q) : o \in AggOps, sc \in Scales, q \in IdxPars(ty.d)} ELSE {})
 
 DimsAgree(ta, tb) == ta.d = tb.d \/ ta.d = 1 \/ tb.d = 1
 BinExt(a, b) ==
